@@ -20,6 +20,10 @@ pub enum Plan {
     /// fail operation k on source dev (0 .shp, 1 .shx) during the traversal
     Fault { dev: u8, k: u64, persistent: bool },
     ShortRead { kind: u8, arg: u64 },
+    /// operations k1 < k2 of the .shp fail once each; the iteration goes on after an error
+    Pair { k1: u64, k2: u64, with_shx: bool },
+    /// the files on disk, one of them truncated, opened by path: same answers as the in-memory sources
+    DiskCut { shx: bool, len: usize },
 }
 
 #[derive(Clone, Debug)]
@@ -43,6 +47,8 @@ impl Case {
             Plan::CutShx { len } => json!({"cut": "shx", "len": len}),
             Plan::Fault { dev, k, persistent } => json!({"fault_on": (["shp", "shx"][*dev as usize]), "operation": k, "persistent": persistent}),
             Plan::ShortRead { kind, arg } => json!({"short_read": (["uniform", "one-op-1-byte", "one-op-all-but-last"][*kind as usize]), "arg": arg}),
+            Plan::Pair { k1, k2, with_shx } => json!({"pair_on_shp": [k1, k2], "with_shx": with_shx}),
+            Plan::DiskCut { shx, len } => json!({"disk_cut": (if *shx { "shx" } else { "shp" }), "len": len}),
         };
         json!({"ty": self.ty.name(), "seq": self.seq, "refcodec": self.refcodec, "gapped": self.gapped, "big": self.big, "plan": plan})
     }
@@ -54,6 +60,10 @@ impl Case {
             } else {
                 Plan::CutShx { len: p.get("len")?.as_u64()? as usize }
             }
+        } else if let Some(a) = p.get("pair_on_shp").and_then(|x| x.as_array()) {
+            Plan::Pair { k1: a.first()?.as_u64()?, k2: a.get(1)?.as_u64()?, with_shx: p.get("with_shx")?.as_bool()? }
+        } else if let Some(c) = p.get("disk_cut") {
+            Plan::DiskCut { shx: c.as_str()? == "shx", len: p.get("len")?.as_u64()? as usize }
         } else if let Some(d) = p.get("fault_on") {
             Plan::Fault { dev: if d.as_str()? == "shp" { 0 } else { 1 }, k: p.get("operation")?.as_u64()?, persistent: p.get("persistent")?.as_bool()? }
         } else {
@@ -226,6 +236,138 @@ pub fn traverse(fx: &Fixture, shp: Dev, shx: Option<Dev>) -> Vec<Ans> {
     out
 }
 
+/// A traversal that goes on after errors: open (call 0), next() number j (call 10 + j) until the iterator
+/// ends or n + 4 calls were made, read_nth_shape(i) (call 100 + i).  Per call: what it returned
+/// (Some(Ok(record)), Some(Err), None).
+pub fn traverse_on(fx: &Fixture, shp: Dev, shx: Option<Dev>) -> Vec<(u32, Option<Result<usize, String>>)> {
+    let n = fx.recs.len();
+    let mut out = vec![];
+    let set = |c: u32| {
+        shp.set_call(c);
+        if let Some(x) = &shx {
+            x.set_call(c);
+        }
+    };
+    set(0);
+    let opened = match &shx {
+        Some(x) => ShapeReader::with_shx(shp.clone(), x.clone()),
+        None => ShapeReader::new(shp.clone()),
+    };
+    let mut r = match opened {
+        Ok(r) => {
+            out.push((0, Some(Ok(0))));
+            r
+        }
+        Err(e) => {
+            out.push((0, Some(Err(err_kind(&e)))));
+            return out;
+        }
+    };
+    {
+        let mut it = r.iter_shapes();
+        for j in 0..(n + 4) as u32 {
+            set(10 + j);
+            match it.next() {
+                None => {
+                    out.push((10 + j, None));
+                    break;
+                }
+                Some(x) => out.push((10 + j, Some(x.map_err(|e| err_kind(&e)).and_then(|s| which(&fx.recs, &s))))),
+            }
+        }
+    }
+    if shx.is_some() {
+        for i in 0..n {
+            set(100 + i as u32);
+            out.push((100 + i as u32, r.read_nth_shape(i).map(|x| x.map_err(|e| err_kind(&e)).and_then(|s| which(&fx.recs, &s)))));
+        }
+    }
+    out
+}
+
+/// every call during which an operation failed returned an error; nothing is invented; random access
+/// returns the record asked for
+pub fn judge_pair(ans: &[(u32, Option<Result<usize, String>>)], fired: &[u32]) -> Vec<(String, String)> {
+    let mut out = vec![];
+    for (c, a) in ans {
+        match a {
+            Some(Err(e)) if e.contains("not in the file") => out.push(("two-faults:invented-shape".to_string(), format!("call {}: {}", c, e))),
+            Some(Ok(k)) if *c >= 100 && *k != (*c - 100) as usize => out.push(("two-faults:random-access-wrong-record".to_string(), format!("read_nth_shape({}) returned record {}", c - 100, k))),
+            _ => {}
+        }
+    }
+    for c in fired {
+        match ans.iter().find(|(ac, _)| ac == c) {
+            Some((_, Some(Err(_)))) => {}
+            other => out.push((
+                format!("two-faults:failure-not-reported:{}", if *c == 0 { "open" } else if *c < 100 { "iteration" } else { "read_nth_shape" }),
+                format!("an operation of the source failed during call {} ({}), which returned {:?}", c, if *c == 0 { "open".to_string() } else if *c < 100 { format!("next() number {}", c - 10) } else { format!("read_nth_shape({})", c - 100) }, other.map(|x| &x.1)),
+            )),
+        }
+    }
+    out
+}
+
+/// open + iterate (up to the first error) + random access, on any source type
+fn traverse_any<T: std::io::Read + std::io::Seek>(fx: &Fixture, opened: Result<ShapeReader<T>, shapefile::Error>, indexed: bool) -> Vec<Ans> {
+    let n = fx.recs.len();
+    let mut out = vec![];
+    let mut r = match opened {
+        Ok(r) => {
+            out.push(Ans::Open(Ok(())));
+            r
+        }
+        Err(e) => {
+            out.push(Ans::Open(Err(err_kind(&e))));
+            return out;
+        }
+    };
+    {
+        let mut items = vec![];
+        let mut ended = false;
+        let mut it = r.iter_shapes();
+        loop {
+            if items.len() > n + 3 {
+                break;
+            }
+            match it.next() {
+                None => {
+                    ended = true;
+                    break;
+                }
+                Some(Ok(s)) => items.push(which(&fx.recs, &s)),
+                Some(Err(e)) => {
+                    items.push(Err(err_kind(&e)));
+                    break;
+                }
+            }
+        }
+        out.push(Ans::Iter(items, ended));
+    }
+    if indexed {
+        for i in 0..n {
+            out.push(Ans::Nth(i, r.read_nth_shape(i).map(|x| x.map_err(|e| err_kind(&e)).and_then(|s| which(&fx.recs, &s)))));
+        }
+    }
+    out
+}
+
+/// The two files on disk (one of them cut) opened with `ShapeReader::from_path`, against the same bytes in
+/// memory opened with `with_shx`.
+pub fn disk_vs_memory(fx: &Fixture, cut_shx: bool, len: usize) -> (Vec<Ans>, Vec<Ans>) {
+    let (shp, shx) = if cut_shx { (&fx.shp[..], &fx.shx[..len]) } else { (&fx.shp[..len], &fx.shx[..]) };
+    let dir = super::c01_c02::scratch_dir();
+    let tid: String = format!("{:?}", std::thread::current().id()).chars().filter(|c| c.is_ascii_digit()).collect();
+    let path = dir.join(format!("c13-{}.shp", tid));
+    std::fs::write(&path, shp).expect("scratch write");
+    std::fs::write(path.with_extension("shx"), shx).expect("scratch write");
+    let disk = traverse_any(fx, ShapeReader::from_path(&path), true);
+    let _ = std::fs::remove_file(&path);
+    let _ = std::fs::remove_file(path.with_extension("shx"));
+    let mem = traverse_any(fx, ShapeReader::with_shx(Dev::quiet(shp.to_vec()), Dev::quiet(shx.to_vec())), true);
+    (disk, mem)
+}
+
 fn is_injected(e: &str) -> bool {
     // the call in progress must yield an error for the failed operation; the
     // library passes the source's own error through as Error::IoError, but
@@ -335,6 +477,7 @@ pub fn judge(case: &Case, fx: &Fixture, base: &[Ans], base_logs: (&[Op], &[Op]),
                 }
             }
         }
+        Plan::Pair { .. } | Plan::DiskCut { .. } => {}
         Plan::ShortRead { .. } => {
             if ans != base {
                 out.push(("short-read-differs".into(), format!("traversal differs from the unrestricted source: {:?} vs {:?}", ans, base)));
@@ -420,6 +563,76 @@ fn run_fixture_ext(ty: Ty, seq: &[usize], refcodec: bool, gapped: bool, big: usi
         plans.push((Plan::ShortRead { kind: 1, arg: j }, true));
         plans.push((Plan::ShortRead { kind: 2, arg: j }, true));
     }
+    // small files: every pair of failing operations on the .shp (the iteration goes on after an error), and the
+    // by-path route against the in-memory route for every truncation of either file
+    if seq.len() <= 2 && !gapped && big == 0 && !refcodec {
+        for with_shx in [true, false] {
+            let l = (if with_shx { log_s.len() } else { log_s2.len() }) as u64 + 4;
+            for k1 in 0..l {
+                for k2 in k1 + 1..l {
+                    let case = Case { ty, seq: seq.to_vec(), refcodec, gapped, big, plan: Plan::Pair { k1, k2, with_shx } };
+                    let (a, b) = (Dev::with_data(fx.shp.clone()), Dev::quiet(fx.shx.clone()));
+                    a.fail_at(k1, FaultMode::OneShot);
+                    a.fail_at(k2, FaultMode::OneShot);
+                    let run = catch(|| traverse_on(&fx, a.clone(), if with_shx { Some(b) } else { None }));
+                    if a.faults_fired() < 2 {
+                        continue;
+                    }
+                    let mut h = Fnv::new();
+                    h.str(&case.to_json().to_string());
+                    match run {
+                        Ok(ans) => {
+                            ctx.lib_calls += ans.len() as u64;
+                            let mut oh = Fnv::new();
+                            oh.str(&format!("{:?}", ans));
+                            ctx.case_done(h.finish(), true, oh.finish());
+                            let mut fired: Vec<u32> = a.log().iter().filter_map(|o| if let Op::Failed { call, .. } = o { Some(*call) } else { None }).collect();
+                            fired.dedup();
+                            for (sig, d) in judge_pair(&ans, &fired) {
+                                ctx.violation(format!("{}:{}", ty.name(), sig), || case.to_json(), || d);
+                            }
+                        }
+                        Err(p) => {
+                            ctx.case_done(h.finish(), true, 1);
+                            ctx.violation(format!("{}:{}", ty.name(), p.sig()), || case.to_json(), || format!("{}:{} {}", p.file, p.line, p.msg));
+                        }
+                    }
+                    tick();
+                }
+            }
+        }
+        let cuts = (0..=fx.shx.len()).map(|l| (true, l)).chain((0..=fx.shp.len()).map(|l| (false, l)));
+        for (cut_shx, len) in cuts {
+            let case = Case { ty, seq: seq.to_vec(), refcodec, gapped, big, plan: Plan::DiskCut { shx: cut_shx, len } };
+            let mut h = Fnv::new();
+            h.str(&case.to_json().to_string());
+            match catch(|| disk_vs_memory(&fx, cut_shx, len)) {
+                Ok((disk, mem)) => {
+                    ctx.lib_calls += (disk.len() + mem.len()) as u64;
+                    let mut oh = Fnv::new();
+                    oh.str(&format!("{:?}", disk));
+                    ctx.case_done(h.finish(), true, oh.finish());
+                    if disk != mem {
+                        let what = match (disk.first(), mem.first()) {
+                            (Some(Ans::Open(Ok(()))), Some(Ans::Open(Err(_)))) => "open-error-swallowed",
+                            (Some(Ans::Open(Err(_))), Some(Ans::Open(Ok(())))) => "open-fails",
+                            _ => "answers-differ",
+                        };
+                        ctx.violation(
+                            format!("{}:by-path:{}:{}", ty.name(), if cut_shx { "cut-shx" } else { "cut-shp" }, what),
+                            || case.to_json(),
+                            || format!("{} cut to {} bytes: ShapeReader::from_path answers {:?}, with_shx over the same bytes in memory {:?}", if cut_shx { ".shx" } else { ".shp" }, len, disk, mem),
+                        );
+                    }
+                }
+                Err(p) => {
+                    ctx.case_done(h.finish(), true, 1);
+                    ctx.violation(format!("{}:by-path:{}", ty.name(), p.sig()), || case.to_json(), || p.msg.clone());
+                }
+            }
+            tick();
+        }
+    }
     ctx.bump("plans", plans.len() as u64);
     for (plan, with_index) in plans {
         let case = Case { ty, seq: seq.to_vec(), refcodec, gapped, big, plan: plan.clone() };
@@ -431,6 +644,7 @@ fn run_fixture_ext(ty: Ty, seq: &[usize], refcodec: bool, gapped: bool, big: usi
                 (if *dev == 0 { &a } else { &b }).fail_at(*k, if *persistent { FaultMode::Persistent } else { FaultMode::OneShot });
                 (a, b)
             }
+            Plan::Pair { .. } | Plan::DiskCut { .. } => unreachable!(),
             Plan::ShortRead { kind, arg } => {
                 let (a, b) = (Dev::quiet(fx.shp.clone()), Dev::quiet(fx.shx.clone()));
                 let c = match kind {
@@ -509,6 +723,9 @@ fn selftest() -> (u64, u64) {
 
 pub fn check(tier: Tier) -> i32 {
     let started = Instant::now();
+    if !super::c01_c02::scratch_usable() {
+        return 2;
+    }
     let types: Vec<Ty> = ALL13.to_vec();
     let mut units = vec![];
     for ty in &types {
@@ -537,16 +754,17 @@ pub fn check(tier: Tier) -> i32 {
         run_fixture_ext(*ty, seq, *rc, *gapped, *big, ctx, tick);
     });
     let st = selftest();
+    super::c01_c02::cleanup_scratch();
     finish(
         RunInfo {
             prop: "C13",
             tier,
             level: "fault_enumeration",
             engine: "valid files (library-written and RefCodec-written) read by the real ShapeReader from truncated, fault-injecting and short-reading devices",
-            rule: "per file: every truncation length 0..=len of the .shp (read with the intact .shx and without index), every truncation length of the .shx, every operation index k over the reads and seeks of a full traversal (open, iterate, read_nth_shape(i) and seek(i) for all i) x {one-shot, persistent} on each source, uniform short reads c in {1,2,3,4,5,7,8,9,15,16,17} and, for every read call j, 'call j returns 1 byte' / 'len-1 bytes'; files = types x 3 sequences (1-3 records of different sizes) x {library writer, RefCodec}, plus RefCodec files with fillers in front of every record (read through the index), plus files whose second record has a part of 1500 / 70001 points (cuts: last 48 bytes, around every power of two and every MiB, every 4099th byte; short reads); every case is non-trivial",
+            rule: "per file: every truncation length 0..=len of the .shp (read with the intact .shx and without index), every truncation length of the .shx, every operation index k over the reads and seeks of a full traversal (open, iterate, read_nth_shape(i) and seek(i) for all i) x {one-shot, persistent} on each source, uniform short reads c in {1,2,3,4,5,7,8,9,15,16,17} and, for every read call j, 'call j returns 1 byte' / 'len-1 bytes'; files = types x 3 sequences (1-3 records of different sizes) x {library writer, RefCodec}, plus RefCodec files with fillers in front of every record (read through the index), plus, for the library-written files of 1 and 2 records: every pair of operations of the .shp failing once each, with and without index, the iteration going on after an error (every call during which an operation failed returns an error, nothing invented), and the two files on disk with every truncation of the .shx and of the .shp opened by ShapeReader::from_path (same answers as with_shx over the same bytes in memory); plus files whose second record has a part of 1500 / 70001 points (cuts: last 48 bytes, around every power of two and every MiB, every 4099th byte; short reads); every case is non-trivial",
             bounds: json!({"types": types.iter().map(|t| t.name()).collect::<Vec<_>>(), "files": units.len()}),
             exhaustive: true,
-            assumptions: vec!["iteration is observed up to the first error (what happens after it is C07's business)".into()],
+            assumptions: vec!["single faults, truncations and short reads: iteration is observed up to the first error; pairs of faults: the iteration goes on after an error, and only 'reported by the call in progress', 'nothing invented' and 'random access returns the record asked for' are judged".into()],
             started,
             states: 0,
             transitions: 0,
